@@ -21,6 +21,31 @@ spec fn path_arc(n: int, a: int, b: int) -> bool {
     0 <= a < n - 1 && b == a + 1
 }
 
+// ---- proof helpers: `% n` free form of the circuit predicate ----
+
+/// successor on the n-circuit without `%`
+spec fn circuit_lin(n: int, a: int, b: int) -> bool {
+    n > 1 && 0 <= a < n && b == (if a == n - 1 { 0 } else { a + 1 })
+}
+
+spec fn circuit_mod_ok(n: int) -> bool {
+    forall|a: int, b: int| #[trigger] circuit_arc(n, a, b) == circuit_lin(n, a, b)
+}
+
+proof fn lemma_circuit_lin(n: int)
+    ensures circuit_mod_ok(n),
+{
+    assert forall|a: int, b: int| #[trigger] circuit_arc(n, a, b) == circuit_lin(n, a, b) by {
+        if n > 1 && 0 <= a < n {
+            if a == n - 1 {
+                vstd::arithmetic::div_mod::lemma_mod_self_0(n);
+            } else {
+                vstd::arithmetic::div_mod::lemma_small_mod((a + 1) as nat, n as nat);
+            }
+        }
+    }
+}
+
 /// what `collect::<BTreeSet<_>>()` promises about the item sequence `rem` it consumed (see prelude/list_ops_std.rs)
 spec fn collected(rem: Seq<(usize, usize)>, s: BTreeSet<(usize, usize)>) -> bool {
     <BTreeSet<(usize, usize)> as vstd::std_specs::iter::FromIteratorSpec<(usize, usize)>>::from_iter_ensures(rem, s)
@@ -51,13 +76,121 @@ impl EdgeList {
         proof {
             let n = order as int;
             assert forall|rem: Seq<(usize, usize)>, s: BTreeSet<(usize, usize)>|
-                #[trigger] collected(rem, s) && n > 1 && rem.len() == n
+                #[trigger] <BTreeSet<(usize, usize)> as vstd::std_specs::iter::FromIteratorSpec<(usize, usize)>>::from_iter_ensures(rem, s) && n > 1 && rem.len() == n
                 && (forall|k: int| 0 <= k < n ==> #[trigger] rem[k] == (k as usize, ((k + 1) % n) as usize))
-                implies (forall|p: (usize, usize)| #[trigger] s@.contains(p) == circuit_arc(n, p.0 as int, p.1 as int)) by {
-                assert forall|p: (usize, usize)| #[trigger] s@.contains(p) == circuit_arc(n, p.0 as int, p.1 as int) by {
+                implies (forall|p: (usize, usize)| #[trigger] s@.contains(p) == circuit_arc(n, p.0 as int, p.1 as int))
+                    && (forall|p: (usize, usize)| #[trigger] s@.contains(p) ==> p.0 != p.1) by {
+                assert forall|p: (usize, usize)| #[trigger] s@.contains(p) == circuit_arc(n, p.0 as int, p.1 as int) && (s@.contains(p) ==> p.0 != p.1) by {
                     if circuit_arc(n, p.0 as int, p.1 as int) { assert(rem[p.0 as int] == p); }
+                    lemma_circuit_lin(n);
+                    assert(circuit_arc(n, p.0 as int, p.1 as int) == circuit_lin(n, p.0 as int, p.1 as int));
                 }
             }
+        }
+    @*/
+
+    /*@fn impl=EdgeList trait=Path name=path props=C14,C13
+    ensures
+        order >= 1,
+        r.wf(),
+        r.ord() == order,
+        forall|a: int, b: int| #![trigger r.has(a, b)] r.has(a, b) == path_arc(order as int, a, b),
+    @closure 1 |u: usize| -> (p: (usize, usize))
+    requires
+        u < order - 1,
+    ensures
+        p == (u, (u + 1) as usize),
+    @fn_start
+        broadcast use vstd::std_specs::iter::group_iter_axioms;
+        broadcast use axiom_btree_set_from_iter;
+        proof {
+            let n = order as int;
+            assert forall|rem: Seq<(usize, usize)>, s: BTreeSet<(usize, usize)>|
+                #[trigger] <BTreeSet<(usize, usize)> as vstd::std_specs::iter::FromIteratorSpec<(usize, usize)>>::from_iter_ensures(rem, s)
+                && n > 1 && rem.len() == n - 1
+                && (forall|k: int| 0 <= k < n - 1 ==> #[trigger] rem[k] == (k as usize, (k + 1) as usize))
+                implies (forall|p: (usize, usize)| #[trigger] s@.contains(p) == path_arc(n, p.0 as int, p.1 as int)) by {
+                assert forall|p: (usize, usize)| #[trigger] s@.contains(p) == path_arc(n, p.0 as int, p.1 as int) by {
+                    if path_arc(n, p.0 as int, p.1 as int) { assert(rem[p.0 as int] == p); }
+                }
+            }
+        }
+    @*/
+
+    // A: `#[derive(Clone)]` on `struct EdgeList { arcs: BTreeSet<(usize, usize)>, order: usize }` is fieldwise (rustdoc of the
+    // Clone derive: "the derived implementation of Clone calls clone on each field"); `BTreeSet::clone` returns a set with
+    // the same elements (vstd) and `usize::clone` an equal value.  The extractor drops derives, so the derived method is
+    // stated here as an assumed inherent contract.
+    #[verifier::external_body]
+    fn clone(&self) -> (r: Self)
+        ensures r.arcs@ == self.arcs@, r.order == self.order,
+    { unimplemented!() }
+
+    /*@fn impl=EdgeList trait=Converse name=converse props=C11,C13
+    requires
+        self.wf(),
+    ensures
+        r.wf(),
+        r.ord() == self.ord(),
+        forall|a: int, b: int| #![trigger r.has(a, b)] r.has(a, b) == self.has(b, a),
+    @closure 1 |t: &(usize, usize)| -> (p: (usize, usize))
+    ensures
+        p == (t.1, t.0),
+    @fn_start
+        broadcast use vstd::std_specs::iter::group_iter_axioms;
+        broadcast use axiom_btree_set_from_iter;
+        proof {
+            // the collected set is the tail expression, so the facts about the item sequence `src` of `self.arcs.iter()` and
+            // the mapped item sequence `rem` are stated for every candidate (triggers: terms of the std contracts)
+            assert forall|src: Seq<&(usize, usize)>, rem: Seq<(usize, usize)>, s: BTreeSet<(usize, usize)>|
+                #[trigger] <BTreeSet<(usize, usize)> as vstd::std_specs::iter::FromIteratorSpec<(usize, usize)>>::from_iter_ensures(rem, s)
+                && #[trigger] src.unref().to_set() == self.arcs@ && rem.len() == src.len()
+                && (forall|k: int| 0 <= k < rem.len() ==> #[trigger] rem[k] == ((*src[k]).1, (*src[k]).0))
+                implies (forall|p: (usize, usize)| #[trigger] s@.contains(p) == self.arcs@.contains((p.1, p.0))) by {
+                assert forall|p: (usize, usize)| #[trigger] s@.contains(p) == self.arcs@.contains((p.1, p.0)) by {
+                    let q = (p.1, p.0);
+                    if s@.contains(p) {
+                        let k = choose|k: int| 0 <= k < rem.len() && rem[k] == p;
+                        assert(src.unref()[k] == q);
+                        assert(src.unref().to_set().contains(q));
+                    }
+                    if self.arcs@.contains(q) {
+                        assert(src.unref().to_set().contains(q));
+                        let k = choose|k: int| 0 <= k < src.len() && src.unref()[k] == q;
+                        assert(rem[k] == p);
+                    }
+                }
+            }
+        }
+    @*/
+
+    /*@fn impl=EdgeList trait=Union name=union props=C11,C13
+    requires
+        self.wf(),
+        other.wf(),
+    ensures
+        r.wf(),
+        r.ord() == (if self.ord() >= other.ord() { self.ord() } else { other.ord() }),
+        forall|a: int, b: int| #![trigger r.has(a, b)] r.has(a, b) == (self.has(a, b) || other.has(a, b)),
+    @fn_start
+        let ghost other0 = *other;
+    @loop 1
+    invariant
+        self.wf(),
+        other0.wf(),
+        *other == *self || *other == other0,
+        union.wf(),
+        union.ord() == (if self.ord() >= other0.ord() { self.ord() } else { other0.ord() }),
+        it1.seq().unref().to_set() == other.arcs@,
+        forall|a: int, b: int| #![trigger union.has(a, b)] union.has(a, b) ==> self.has(a, b) || other0.has(a, b),
+        forall|a: int, b: int| #![trigger union.has(a, b)] (if *other == *self { other0.has(a, b) } else { self.has(a, b) }) ==> union.has(a, b),
+        forall|i: int| 0 <= i < it1.index() ==> union.has((#[trigger] it1.seq()[i]).0 as int, it1.seq()[i].1 as int),
+    @before `union.add_arc(`
+        proof {
+            let k = it1.index() as int;
+            assert(it1.seq().unref()[k] == (u, v));
+            assert(it1.seq().unref().to_set().contains((u, v)));
+            assert(other.has(u as int, v as int));
         }
     @*/
 }
